@@ -13,9 +13,8 @@
 
    Sources: internal/openapiv3/{generator.go,types.go} (through OpenApi.v), internal/httpgen and
    internal/clientgen marshalResponse / marshalRequest (through Codec.encode), http/errors_impl.go
-   (through Errors.pmsg_pj). *)
+   (error_body / validation_body). *)
 From Sebuf Require Export CodecCases OasCheck.
-From Sebuf Require Import Errors.
 
 Open Scope Z_scope.
 
@@ -361,10 +360,16 @@ Definition defects_C06_param (k : kind) (v : sval) : list c06_defect :=
   end.
 
 (* ---- error bodies --------------------------------------------------------------------------------------- *)
-(* what writeErrorWithHandler sends (Errors.pmsg_pj: protojson of sebuf.http.Error / ValidationError:
-   empty strings and empty lists are omitted) *)
-Definition error_body (msg : str) : json := pmsg_pj (PError (lit msg)).
-Definition validation_body (vs : list (str * str)) : json := pmsg_pj (PValidation vs).
+(* what writeErrorWithHandler sends (http/errors_impl.go + generator.go writeErrorWithHandler: protojson of
+   sebuf.http.Error{message} / ValidationError{violations: [FieldViolation{field, description}]}; as everywhere in
+   proto3 JSON, empty strings and empty lists are omitted; the same JSON as Errors.pmsg_pj (C10) for literal texts) *)
+Definition error_body (msg : str) : json :=
+  JObj (match msg with [] => [] | x => [(s "message", JStr x)] end).
+Definition violation_json (fd : str * str) : json :=
+  JObj ((match fst fd with [] => [] | f => [(s "field", JStr f)] end) ++
+        (match snd fd with [] => [] | d => [(s "description", JStr d)] end)).
+Definition validation_body (vs : list (str * str)) : json :=
+  JObj (match vs with [] => [] | _ => [(s "violations", JArr (map violation_json vs))] end).
 
 Definition str_null (x : str) : bool := match x with [] => true | _ => false end.
 (* generator.go:907-961 requires `violations`, and `field` + `description` of every violation; protojson omits
